@@ -106,7 +106,9 @@ var c11Exts = []c11Ext{
 		return d
 	}},
 	{cfg.SDefList, func(d []byte) []byte { return replBytes(d, ":", ";") }},
-	{cfg.STypographer, func(d []byte) []byte { return replBytes(d, "'", "x", "\"", "y", "-", "*", ".", ")", "<", "(", ">", ")") }},
+	{cfg.STypographer, func(d []byte) []byte {
+		return replBytes(d, "'", "x", "\"", "y", "-", "*", ".", ")", "<", "(", ">", ")")
+	}},
 	{cfg.SLinkify, func(d []byte) []byte { return stripWWW(replBytes(d, ":", ";", "@", "a")) }},
 	{cfg.SCJKSimple, stripASCII},
 	{cfg.SCJKCSS3, stripASCII},
